@@ -9,7 +9,7 @@ import synth
 from vcore import COQ, cbool, clist, z, zlist
 
 TIE = 'Tie.C09'
-RULE = ('cases = integer density grids (2-5 voxels per axis, 30-70% unvisited voxels, counts 1..5000 with repeated and extreme values) x temperatures in (0, 2000] '
+RULE = ('cases = integer density grids (1-5 voxels per axis, 0-70% unvisited voxels, counts 1..5000 with repeated and extreme values, 35% of the grids with one dominant voxel of 3e8..1e13 counts so that visited probabilities go down to 1e-13) x temperatures in (0, 2000] '
         'x thresholds; discrete part (exact max-float for unvisited voxels, node set) through the Coq tie; numeric part by per-voxel interval-arithmetic '
         'certificates |F_impl - (-k_B T ln(c/N))| <= tol proved by Coq (deduplicated on (c, N, T), capped per run), plus one certificate that the k_B used '
         'by the code is the SI-exact quotient 1.380649e-23 / 1.602176634e-19; non-trivial = >= 1 unvisited and >= 2 distinct visited densities')
@@ -34,6 +34,10 @@ def gen_cases(rng, tier):
                 data.append(rng.choice([1, 1, 2, 3, 9, 10, 100, 4999, rng.randint(1, 5000)]))
         if not any(data):
             data[rng.randrange(nv)] = rng.randint(1, 50)
+        # wide dynamic range (a long run with one dominant voxel and rarely visited ones: probabilities down to 1e-13)
+        wide = rng.random() < 0.35
+        if wide:
+            data[rng.randrange(nv)] = rng.choice([5 * 10**9, 10**12, 3 * 10**8 + 1, 10**13])
         cases.append({'dims': dims, 'data': data, 'T': rng.choice([1.0, 77.0, 300.0, 650.0, 1000.0, 2000.0, rng.uniform(0.5, 2000)]),
                       'thr': rng.choice([1e20, 1e7, 1.0, 0.2])})
     return cases
@@ -153,7 +157,7 @@ def nontrivial(case, out):
 
 
 def classify(case, out):
-    return [f'thr={case["thr"]:g}', 'has-unvisited' if 0 in case['data'] else 'all-visited']
+    return [f'thr={case["thr"]:g}', 'has-unvisited' if 0 in case['data'] else 'all-visited', 'wide-range' if max(case['data']) >= 10**8 else 'narrow-range']
 
 
 def sample(case, out):
